@@ -468,6 +468,7 @@ pub fn check_json(input: &JsonInput) -> (Option<(String, String)>, u8) {
 
 /// child: handles cases with idx % nchild == k, idx >= start; progress written to a file
 pub fn child(thorough: bool, k: u64, nchild: u64, start_bytes: u64, start_json: u64, dir: &str) -> i32 {
+    alloc::enable();
     let prog = std::fs::OpenOptions::new().create(true).write(true).truncate(false).open(format!("{dir}/progress_{k}")).expect("progress file");
     let out = std::io::stdout();
     let mut out = out.lock();
@@ -645,6 +646,7 @@ pub fn run(thorough: bool) -> i32 {
 }
 
 pub fn replay(body: &Value) -> i32 {
+    alloc::enable();
     let c = &body["case"];
     let res = match c["kind"].as_str() {
         Some("bytes") => {
